@@ -1,6 +1,6 @@
 (** C18 — part A of the proofs: the translated permission shuffles [Gen_C18]. *)
 From Coq Require Import List ZArith Bool Lia.
-From V Require Import lib.Verdict lib.GoInt lib.Varint lib.Pb lib.UnixFsPb gen.Gen_C18 model.M_C18.
+From V Require Import lib.Verdict lib.GoInt lib.GoBits lib.Varint lib.Pb lib.UnixFsPb gen.Gen_C18 model.M_C18.
 Import ListNotations.
 Open Scope Z_scope.
 
@@ -43,80 +43,6 @@ Qed.
 Lemma unix_of_mode_of_unix : forall p, 0 <= p < 4096 ->
   ModePermsToUnixPerms (UnixPermsToModePerms p) = p.
 Proof. intros p H. apply perm_word. assumption. Qed.
-
-(** ---------- bit-level semantics of the uint32 operators of GoInt ---------- *)
-Lemma tb_wrap32 : forall z i, 0 <= i -> Z.testbit (wrap U32 z) i = Z.testbit z i && (i <? 32).
-Proof.
-  intros z i Hi. rewrite wrap_unsigned by reflexivity. change (bits U32) with 32.
-  destruct (Z.ltb_spec i 32).
-  - rewrite Z.mod_pow2_bits_low by lia. rewrite andb_true_r. reflexivity.
-  - rewrite Z.mod_pow2_bits_high by lia. rewrite andb_false_r. reflexivity.
-Qed.
-
-Lemma tb_and : forall a b i, 0 <= i ->
-  Z.testbit (and_ U32 a b) i = Z.testbit a i && Z.testbit b i && (i <? 32).
-Proof. intros. unfold and_. rewrite tb_wrap32, Z.land_spec by assumption. reflexivity. Qed.
-
-Lemma tb_or : forall a b i, 0 <= i ->
-  Z.testbit (or_ U32 a b) i = (Z.testbit a i || Z.testbit b i) && (i <? 32).
-Proof. intros. unfold or_. rewrite tb_wrap32, Z.lor_spec by assumption. reflexivity. Qed.
-
-Lemma tb_conv : forall t x i, 0 <= i ->
-  Z.testbit (conv t U32 x) i = Z.testbit x i && (i <? 32).
-Proof. intros. unfold conv. apply tb_wrap32. assumption. Qed.
-
-Lemma tb_shr : forall x n i, 0 <= n < 32 -> 0 <= i ->
-  Z.testbit (shr U32 x n) i = Z.testbit x (i + n) && (i <? 32).
-Proof.
-  intros x n i Hn Hi. unfold shr. change (bits U32) with 32.
-  destruct (Z.leb_spec 0 n); [|lia]. destruct (Z.ltb_spec n 32); [|lia]. cbn [andb].
-  rewrite tb_wrap32, Z.shiftr_spec by assumption. reflexivity.
-Qed.
-
-Lemma tb_shl_hi : forall x n i, 0 <= n < 32 -> n <= i ->
-  Z.testbit (shl U32 x n) i = Z.testbit x (i - n) && (i <? 32).
-Proof.
-  intros x n i Hn Hi. rewrite shl_spec by (change (bits U32) with 32; lia).
-  rewrite tb_wrap32 by lia. rewrite <- Z.shiftl_mul_pow2 by lia.
-  rewrite Z.shiftl_spec by lia. reflexivity.
-Qed.
-
-Lemma tb_shl_lo : forall x n i, 0 <= n < 32 -> 0 <= i < n ->
-  Z.testbit (shl U32 x n) i = false.
-Proof.
-  intros x n i Hn Hi. rewrite shl_spec by (change (bits U32) with 32; lia).
-  rewrite tb_wrap32 by lia. rewrite <- Z.shiftl_mul_pow2 by lia.
-  rewrite Z.shiftl_spec by lia. rewrite Z.testbit_neg_r by lia. reflexivity.
-Qed.
-
-Lemma tb_const_hi : forall c k i, 0 <= c < 2 ^ k -> 0 <= k <= i -> Z.testbit c i = false.
-Proof.
-  intros c k i Hc Hk. destruct (Z.eq_dec c 0) as [->|Hnz]; [apply Z.bits_0|].
-  apply Z.bits_above_log2; [lia|].
-  assert (Z.log2 c < k) by (apply Z.log2_lt_pow2; lia). lia.
-Qed.
-
-Lemma lt_pow2_of_bits : forall a n, 0 <= a -> 0 <= n ->
-  (forall i, n <= i -> Z.testbit a i = false) -> a < 2 ^ n.
-Proof.
-  intros a n Ha Hn H.
-  assert (E : a = a mod 2 ^ n).
-  { apply Z.bits_inj'. intros i Hi. destruct (Z_lt_le_dec i n).
-    - rewrite Z.mod_pow2_bits_low by lia. reflexivity.
-    - rewrite Z.mod_pow2_bits_high by lia. apply H. lia. }
-  rewrite E. apply Z.mod_pos_bound. apply Z.pow_pos_nonneg; lia.
-Qed.
-
-Lemma lt32_cases : forall i, 0 <= i < 32 -> i = 0 \/ i = 1 \/ i = 2 \/ i = 3 \/ i = 4 \/ i = 5 \/ i = 6 \/ i = 7 \/ i = 8 \/ i = 9 \/ i = 10 \/ i = 11 \/ i = 12 \/ i = 13 \/ i = 14 \/ i = 15 \/ i = 16 \/ i = 17 \/ i = 18 \/ i = 19 \/ i = 20 \/ i = 21 \/ i = 22 \/ i = 23 \/ i = 24 \/ i = 25 \/ i = 26 \/ i = 27 \/ i = 28 \/ i = 29 \/ i = 30 \/ i = 31.
-Proof. intros. lia. Qed.
-
-(** rewrite a testbit of a tree of uint32 operators at a LITERAL index down to
-    testbits of its leaves *)
-Ltac tbnorm :=
-  repeat first
-    [ rewrite tb_or by lia | rewrite tb_and by lia | rewrite tb_shr by lia
-    | rewrite tb_shl_hi by lia | rewrite tb_shl_lo by lia | rewrite tb_conv by lia
-    | rewrite Z.land_spec | rewrite Z.lor_spec ].
 
 (** [if p == 0 then 0 else G p] is [G p] when [G 0 = 0] *)
 Lemma if_zero : forall (G : Z -> Z) p, G 0 = 0 -> (if Z.eqb p 0 then 0 else G p) = G p.
